@@ -339,9 +339,10 @@ def _constructor_rejections():
 
 
 def _percall_failures(pid, tier, seed):
-    """C04 / C12, outside the model's label domain: in the model a request's call of `func` raises
-    for *every* invocation or for none (`bad`); here the call fails for an arbitrary subset of the
-    invocation indices of one apply()/start() request.  Direct check on the implementation: every
+    """C04 / C12: the call of `func` fails for an arbitrary subset of the invocation indices of one
+    apply()/start() request.  (The model and the lockstep harness cover this too - failure
+    patterns `bad=p0101...`, theorem C04_skips_exactly_failing; this direct check is kept as an
+    independent second look.)  Direct check on the implementation: every
     invocation whose call does not raise becomes exactly one task (in the returned group), the
     failing ones are skipped, whatever the pool size."""
     import asyncio
